@@ -439,6 +439,8 @@ func (e *Engine) resolveType(pkg, s string) (types.Type, error) {
 	switch s {
 	case "mathint":
 		return types.Typ[types.UntypedInt], nil
+	case "struct{}":
+		return types.NewStruct(nil, nil), nil
 	}
 	if o := types.Universe.Lookup(s); o != nil {
 		if tn, ok := o.(*types.TypeName); ok {
